@@ -816,3 +816,22 @@ func init() {
 		},
 	})
 }
+
+func init() {
+	register(&PropDef{ID: "C14", Rule: "projects of 1-5 processes (environment, working directory, restart policy, dependencies; forever-running and finite commands) receive 1-3 successive UpdateProject requests whose new configuration removes, adds, changes (command, environment, working directory, restart policy, back-off) or keeps each process, or is identical; after each, the returned status map, the listed processes, their reported configuration and the simulated process table (who kept running, who was signalled, what the new commands were launched with) are compared with the new configuration; non-trivial = at least one update request returned; distinct = distinct trace hash",
+		Gen: func(seed uint64, idx int, tier string) *Scenario {
+			sc, r := baseScenario("C14", seed)
+			genC14(r, sc, tier)
+			return sc
+		},
+		Check: checkC14,
+		NonTrivial: func(sc *Scenario, res *RunResult, t *Truth) bool {
+			for _, c := range t.Calls {
+				if c.Op == "update" && c.RetSeq >= 0 {
+					return true
+				}
+			}
+			return false
+		},
+	})
+}
